@@ -144,7 +144,16 @@ TOK = re.compile(r"\s*(?:(\d+\.(?![a-z]+\.)\d*(?:[ed][+-]?\d+)?|\.\d+(?:[ed][+-]
 def tokenize(s):
     toks = []
     i = 0
-    s = s.strip()
+    # blanks are insignificant in fixed-form Fortran (the reference writes "0. and." for "0.and."): drop them outside strings
+    out = []
+    q = False
+    for ch in s:
+        if ch == "'":
+            q = not q
+        if ch in ' \t' and not q:
+            continue
+        out.append(ch)
+    s = ''.join(out)
     while i < len(s):
         m = TOK.match(s, i)
         if not m or m.end() == i:
@@ -177,6 +186,7 @@ class Ctx:
         self.locals = {}   # name -> type char
         self.tmpn = 0
         self.pre = []
+        self.commons_used = {}
 
     def vtype(self, name):
         if name in self.u.types:
@@ -185,7 +195,13 @@ class Ctx:
 
     def var(self, name):
         t = self.vtype(name)
-        if name not in self.u.args and name not in self.prog.common_of.get(self.u.name, {}):
+        if self.prog.common_of.get(self.u.name, {}).get(name) == 'genevent':
+            # scalar of the reference event record (npfull, tevst): state of the abstract event
+            self.calls.add('ref_' + name)
+            return E('var', name='ref_ev_' + name, extra='global'), t
+        if name in self.prog.common_of.get(self.u.name, {}):
+            self.commons_used[name] = (t, self.prog.common_arrays[self.u.name].get(name))
+        elif name not in self.u.args:
             self.locals.setdefault(name, t)
         isd = name in self.u.args and name in self.out_args
         return E('var', name=name, extra='local', isd=isd), t
@@ -412,6 +428,19 @@ class Program:
         for u in self.units.values():
             self.declarations(u)
         self.dummy_fixpoint()
+        self.common_init = {}
+        bd = self.units.get('blockdata')
+        if bd is not None:
+            for lab, t, n in bd.body:
+                m = re.match(r'^data\s+(\w+)\s*/(.*)/\s*$', t)
+                if m:
+                    vals = []
+                    for v in bx2c.split_top(m.group(2)):
+                        v = v.strip()
+                        mm = re.match(r'^(\d+)\*(.*)$', v)
+                        rep, v = (int(mm.group(1)), mm.group(2)) if mm else (1, v)
+                        vals += [v] * rep
+                    self.common_init[m.group(1)] = vals
 
     # ---- declarations ---------------------------------------------------------------------
     def declarations(self, u):
@@ -504,6 +533,8 @@ class Program:
             ctx.calls.add('ref_' + name)
             return E('call', a='ref_' + name, args=es), t
         if len(es) == 1:
+            if blk is not None:
+                ctx.commons_used[name] = (t, self.common_arrays[u.name].get(name))
             return E('index', a=E('var', name=name, extra='local'), b=E('bin', op='-', a=es[0], b=E('ilit', name='1'))), t
         raise Unsupported('multi-dimensional array ' + name)
 
@@ -570,6 +601,17 @@ class Program:
                 dims = u.arrays[nm]
                 if len(dims) != 1:
                     raise Unsupported('array dims ' + nm)
+                f.locals.append(('%s[%s]' % (ct, dims[0]), nm, None))
+            else:
+                f.locals.append((ct, nm, None))
+        f.commons = dict(ctx.commons_used)
+        for nm, (t, dims) in ctx.commons_used.items():
+            ct = {'d': 'double', 'i': 'int', 'l': 'bool'}.get(t)
+            if ct is None:
+                raise Unsupported('common variable %s of type %s' % (nm, t))
+            if dims:
+                if len(dims) != 1:
+                    raise Unsupported('common array dims ' + nm)
                 f.locals.append(('%s[%s]' % (ct, dims[0]), nm, None))
             else:
                 f.locals.append((ct, nm, None))
@@ -812,3 +854,117 @@ if __name__ == '__main__':
     print(ok, 'units translated', bad, 'refused')
     for k, v in why.most_common(40):
         print(v, k)
+
+
+# ----------------------------------------------------------------------------------------------
+# GENBBsub initialisation as a spec function (C06): the character tests are evaluated for a CONCRETE nuclide name,
+# everything else (level table, Q-values, consistency rules) is rendered like any other unit.
+# ----------------------------------------------------------------------------------------------
+
+def _eval_char_conditions(text, chn, chnuclide):
+    """replace  chn(a:b).eq.'X'  and  chnuclide.eq.'X'  by .true./.false. for concrete strings"""
+    def sub1(m):
+        a, b, lit = int(m.group(1)), int(m.group(2)), m.group(3)
+        s = (chn + ' ' * 40)[a - 1:b]
+        return '.true.' if s.rstrip() == lit.rstrip() and len(lit) <= (b - a + 1) else ('.true.' if s == (lit + ' ' * 40)[:b - a + 1] else '.false.')
+
+    def sub2(m):
+        return '.true.' if chnuclide.rstrip() == m.group(1).rstrip() else '.false.'
+    t = re.sub(r"chn\((\d+):(\d+)\)\.eq\.'([^']*)'", sub1, text)
+    t = re.sub(r"chnuclide\.eq\.'([^']*)'", sub2, t)
+    return t
+
+
+def genbb_init_function(prog, name):
+    """reference GENBBsub, i2bbs=1, istart=-1, for the concrete nuclide name -> bx2c Func
+       ref_genbbinit(ilevel, modebb, &ier, &qbb, &zdbb, &adbb, &ek, &levele, &itrans02)"""
+    u = prog.units.get('genbbsub')
+    if u is None:
+        raise Unsupported('GENBBsub not found in the reference')
+    body = u.body
+    # locate the DBD block:  if(i2bbs.eq.1) then ... endif   and the quadruple-beta check that follows it
+    start = None
+    for k, (lab, t, n) in enumerate(body):
+        if re.match(r'^if\s*\(\s*i2bbs\.eq\.1\s*\)\s*then$', t):
+            start = k
+            break
+    if start is None:
+        raise Unsupported('GENBBsub: DBD block not found')
+    marks, end = prog.find_block_end(body, start, len(body))
+    stop = None
+    for k in range(end + 1, len(body)):
+        if re.match(r'^if\s*\(\s*i2bbs\.eq\.2\s*\)\s*then$', body[k][1]):
+            stop = k
+            break
+    if stop is None:
+        raise Unsupported('GENBBsub: background block not found')
+    region = body[start + 1:end] + body[end + 1:stop]
+    # which branch of the isotope chain matches? (the chain is the first block-if of the region)
+    chn = name
+    canonical = name
+    stmts = []
+    first = True
+    k = 0
+    while k < len(region):
+        lab, t, n = region[k]
+        if first and re.match(r"^if\s*\(.*chn\(", t):
+            first = False
+            mk, e = prog.find_block_end(region, k, len(region))
+            bounds = [k] + mk + [e]
+            taken = None
+            for bi in range(len(bounds) - 1):
+                head = region[bounds[bi]][1]
+                if head == 'else':
+                    taken = bi
+                    break
+                c = _eval_char_conditions(head, chn, canonical)
+                if 'chn(' in c or 'chart(' in c:
+                    continue
+                # evaluate the (now purely logical) condition
+                expr = re.sub(r'^(else\s*)?if\s*\(', '(', c)
+                expr = re.sub(r'\)\s*then$', ')', expr)
+                py = expr.replace('.true.', ' True ').replace('.false.', ' False ').replace('.and.', ' and ').replace('.or.', ' or ').replace('.not.', ' not ')
+                try:
+                    val = eval(py, {'__builtins__': {}}, {})
+                except Exception:
+                    raise Unsupported('GENBBsub: cannot evaluate isotope test: ' + head[:80])
+                if val:
+                    taken = bi
+                    break
+            if taken is None:
+                raise Unsupported('GENBBsub: no branch for ' + name)
+            blk = region[bounds[taken] + 1:bounds[taken + 1]]
+            for (l2, t2, n2) in blk:
+                m = re.match(r"^chnuclide\s*=\s*'([^']*)'$", t2)
+                if m:
+                    canonical = m.group(1)
+                    continue
+                stmts.append((l2, t2, n2))
+            k = e + 1
+            continue
+        stmts.append((lab, t, n))
+        k += 1
+    out = []
+    for (lab, t, n) in stmts:
+        if re.match(r'^(chdspin|chmodebb|chn|chnuclide)\s*=', t) or re.match(r"^if\s*\(.*\)\s*(chdspin|chmodebb)\s*=", t):
+            continue
+        t2 = _eval_char_conditions(t, chn, canonical)
+        if re.search(r"'", t2) and not re.match(r'^(print|write)', t2) and not re.match(r'^if\s*\(.*\)\s*print', t2) and not t2.startswith('format'):
+            raise Unsupported('GENBBsub: character operation left in: ' + t2[:80])
+        out.append((lab, t2, n))
+    nu = Unit()
+    nu.kind = 'subroutine'
+    nu.name = 'genbbinit'
+    nu.args = ['ilevel', 'modebb', 'ier', 'qbb', 'zdbb', 'adbb', 'ek', 'levele', 'itrans02']
+    nu.stmts = out
+    nu.body = out
+    nu.types = dict(u.types)
+    nu.types['levele'] = 'i'
+    nu.arrays = {}
+    prog.units['genbbinit'] = nu
+    prog.common_of['genbbinit'] = {k: v for k, v in prog.common_of['genbbsub'].items() if k in ('pi', 'emass', 'datamass')}
+    prog.common_arrays['genbbinit'] = {k: v for k, v in prog.common_arrays['genbbsub'].items() if k in ('datamass',)}
+    prog.assigned_dummies['genbbinit'] = {'ier', 'qbb', 'zdbb', 'adbb', 'ek', 'levele', 'itrans02'}
+    f = prog.translate('genbbinit')
+    f.canonical = canonical
+    return f
